@@ -339,3 +339,47 @@ package template
 //@   option dependsonly c.state c.delim c.attr.name c.element.name templateName
 //@   option dependsonly-finding C02-memo-key-ignores-prefix-and-rel
 //@   ensures text: c.state == stateText ==> sameview(r, templateName)
+
+//@ func (t *Template) Name() (r string)
+//@   serves C05 C07 C08
+//@   requires !isnil(t) && !isnil(t.text)
+//@   ensures spec: seqeq(r, ttname(t.text))
+
+//@ func (t *Template) checkCanParse() (err error)
+//@   serves C07 C08
+//@   requires !isnil(t) ==> !isnil(t.nameSpace) && !held(t.nameSpace.mu)
+//@   option locks true
+//@   ensures nilok: isnil(t) ==> isnil(err)
+//@   ensures frozen: !isnil(t) ==> isnil(err) == !t.nameSpace.escaped
+//@   ensures unlocked: !isnil(t) ==> !held(t.nameSpace.mu)
+
+//@ func (t *Template) Lookup(name string) (r *Template)
+//@   serves C07 C08
+//@   requires !isnil(t) && !isnil(t.nameSpace) && !held(t.nameSpace.mu)
+//@   option locks true
+//@   ensures spec: r == t.nameSpace.set[name]
+//@   ensures unlocked: !held(t.nameSpace.mu)
+
+//@ func escapeTemplate(tmpl *Template, node parse.Node, name string) (err error)
+//@   serves C05 C06 C08
+//@   requires !isnil(tmpl) && !isnil(tmpl.nameSpace) && !isnil(tmpl.nameSpace.set)
+//@   requires !isnil(tmpl.nameSpace.set[name]) ==> !isnil(tmpl.nameSpace.set[name].text)
+//@   option modifies Template.escapeErr Template.Tree TT_Template.Tree
+//@   ensures failed: !isnil(err) && !isnil(tmpl.nameSpace.set[name]) ==> tmpl.nameSpace.set[name].escapeErr == err && isnil(tmpl.nameSpace.set[name].Tree) && isnil(tmpl.nameSpace.set[name].text.Tree)
+//@   ensures failedval: !isnil(err) ==> err != errEscapeOK
+//@   ensures ok: isnil(err) && !isnil(tmpl.nameSpace.set[name]) ==> tmpl.nameSpace.set[name].escapeErr == errEscapeOK && tmpl.nameSpace.set[name].Tree == tmpl.nameSpace.set[name].text.Tree
+//@   ensures others: onlyobjects(tmpl.nameSpace.set[name], tmpl.nameSpace.set[name].text)
+
+//@ func (t *Template) escape() (err error)
+//@   serves C05 C07 C08
+//@   requires !isnil(t) && !isnil(t.nameSpace) && !isnil(t.text) && !held(t.nameSpace.mu) && !isnil(t.nameSpace.set)
+//@   requires registered: t.nameSpace.set[ttname(t.text)] == t
+//@   requires treesync: isnil(t.escapeErr) ==> t.Tree == t.text.Tree
+//@   option modifies Template.escapeErr Template.Tree TT_Template.Tree nameSpace.escaped
+//@   option locks true
+//@   ensures frozen: t.nameSpace.escaped
+//@   ensures unlocked: !held(t.nameSpace.mu)
+//@   ensures sticky: !isnil(old(t.escapeErr)) && old(t.escapeErr) != errEscapeOK ==> err == old(t.escapeErr) && t.escapeErr == old(t.escapeErr)
+//@   ensures okstays: old(t.escapeErr) == errEscapeOK ==> isnil(err) && t.escapeErr == errEscapeOK
+//@   ensures incomplete: isnil(old(t.escapeErr)) && isnil(old(t.Tree)) ==> !isnil(err)
+//@   ensures analysed: isnil(old(t.escapeErr)) && !isnil(old(t.Tree)) ==> ite(isnil(err), t.escapeErr == errEscapeOK, t.escapeErr == err && err != errEscapeOK && isnil(t.Tree) && isnil(t.text.Tree))
